@@ -4,6 +4,7 @@ import Driver.Token
 import Driver.Storage
 import Driver.Table
 import Driver.Codec
+import Driver.Handler
 open Btdht Btdht.Driver
 
 /-- Generic loop for a stateful engine: one op per stdin line, one canonical line out. -/
@@ -26,4 +27,5 @@ def main (args : List String) : IO UInt32 := do
   | ["storage"] => loopS stdin stdout storageStep Storage.empty; return 0
   | ["table"] => loopS stdin stdout tableStep {}; return 0
   | ["codec"] => loopS stdin stdout (stateless codecStep) (); return 0
+  | ["handler"] => loopS stdin stdout handlerStep {}; return 0
   | _ => IO.eprintln "usage: btdht_model <engine>"; return 2
